@@ -163,6 +163,18 @@ def generate(rng, tier):
     return {"enums": enums, "table": table, "ops": ops}
 
 
+def simplify(trace):
+    from .c10 import _simplify_table
+    for cand in _simplify_table(trace["table"]):
+        yield dict(trace, table=cand)
+    for i, op in enumerate(trace["ops"]):
+        for key, plain in (("no_color", False), ("defer", False), ("first", False)):
+            if op.get(key):
+                yield dict(trace, ops=trace["ops"][:i] + [dict(op, **{key: plain})] + trace["ops"][i + 1:])
+        if op.get("op") == "task_step" and op.get("n", 1) > 1:
+            yield dict(trace, ops=trace["ops"][:i] + [dict(op, n=1)] + trace["ops"][i + 1:])
+
+
 # --------------------------------------------------------------------------
 
 class Task:
